@@ -545,7 +545,7 @@ func (in *Interp) nativeArg(v Value) (interface{}, bool) {
 			return nil, true
 		}
 		// error / Stringer values: call their method
-		if m := in.prog.LookupMethod(x.t, nil, "Error"); m != nil {
+		if m := in.findMethod(x.t, "Error"); m != nil {
 			r := in.callSSA(nil, m, []Value{x.v}, nil)
 			s, ok := r.(Str).Concrete()
 			if !ok {
@@ -553,7 +553,7 @@ func (in *Interp) nativeArg(v Value) (interface{}, bool) {
 			}
 			return fmt.Errorf("%s", s), true
 		}
-		if m := in.prog.LookupMethod(x.t, nil, "String"); m != nil {
+		if m := in.findMethod(x.t, "String"); m != nil {
 			r := in.callSSA(nil, m, []Value{x.v}, nil)
 			s, ok := r.(Str).Concrete()
 			if !ok {
@@ -564,6 +564,15 @@ func (in *Interp) nativeArg(v Value) (interface{}, bool) {
 		return in.nativeOf(x.t, x.v)
 	}
 	return nil, false
+}
+
+func (in *Interp) findMethod(t types.Type, name string) *ssa.Function {
+	ms := in.prog.MethodSets.MethodSet(t)
+	sel := ms.Lookup(nil, name)
+	if sel == nil {
+		return nil
+	}
+	return in.prog.MethodValue(sel)
 }
 
 type stringer string
